@@ -11,6 +11,7 @@ def C(quick, thorough=None):
     return {'quick': quick, 'thorough': thorough or ALLCONF}
 
 PROPS = {
+    'C08': {'gens': ['c08'], 'configs': C(['default', 'int64'])},
     'C05': {'gens': ['c05'], 'configs': C(['default', 'int64', 'int128struct'], ALLCONF + ['o2']),
             'assumptions': ['x86-64 assembly, safegcd modinv and ecmult internals are tied by correspondence only']},
 }
